@@ -365,7 +365,8 @@ def select(kinds, tier, seed, op, forms):
         sel[core] = [f for f in forms if f[0] in ("SS", "SMD", "MDS", "MDMD", "MDVD", "VDMD", "MDRD", "RDMD")]
     else:
         sel[core] = list(forms)
-    rest = [k for k in quick_scalar if k != core and k not in ("i128", "u128", "f64")]
+    # the seed-chosen extra is taken from the 16-bit kind only: a 64-bit matrix form chosen by VERIF_SEED=1 pushed the quick check past 15 minutes (vp check 4)
+    rest = [k for k in quick_scalar if k != core and k in ("u16", "i16")]
     if op in ("mul", "div", "mod", "pow"):
         rest = []
     for _ in range(1):
